@@ -412,8 +412,14 @@ func TestVerifC12(t *testing.T) {
 		Gen: func(rt *rapid.T) interface{} {
 			ops := rapid.SliceOfN(opGen, 2, 20).Draw(rt, "ops")
 			// concentrate a history on two targets so that alternations happen
+			// pairs that belong together get extra weight: the two methods of the interface variable, the two methods of M
+			pairs := [][2]int64{{5, 6}, {5, 6}, {3, 4}, {0, 1}, {0, 7}, {2, 5}, {6, 3}}
 			t0 := int64(rapid.IntRange(0, nT-1).Draw(rt, "t0"))
 			t1 := int64(rapid.IntRange(0, nT-1).Draw(rt, "t1"))
+			if rapid.Bool().Draw(rt, "paired") {
+				pr := rapid.SampledFrom(pairs).Draw(rt, "pair")
+				t0, t1 = pr[0], pr[1]
+			}
 			for i := range ops {
 				if vkit.Pick(ops[i].I[0], 4) != 0 {
 					if vkit.Pick(ops[i].I[0], 2) == 0 {
